@@ -142,7 +142,7 @@ PROPS = {
              "non-trivial = J'r != 0; distinct = hash of decoded values",
         technique="property-based testing against long-double normal equations (backward error), a long-double closed form and central difference of phi(lambda), and a dense-vs-sparse differential",
         level_text="Generated-input search including exactly rank-deficient and wide Jacobians and twelve decades of regularisation; the returned step is checked against the normal equations evaluated in extended precision.",
-        level_note="backward error 1e-8 as stated; dense/sparse 1e-6 when cond <= 1e8 (long-double eigenvalues); descent clause allows the rounding of a backward-stable solve (64 eps^2 cond |H| |dx|^2) and is skipped (counted) when that exceeds 1e-6 |r|^2",
+        level_note="backward error 1e-8 as stated; dense/sparse 1e-6 when cond <= 1e8 (long-double eigenvalues); descent clause allows the rounding of a backward-stable solve (64 eps^2 cond |H| |dx|^2) and is skipped (counted) when that exceeds 1e-6 |r|^2; J and d are also scaled as a whole by powers of ten in 1e-8..1e8; dphi is judged where d_max/d_min <= 10 (a third of the cases by construction) relative to the larger of its value and the terms of q'H^-1 q before cancellation; open finding c10.sparse.singular (cond(H) > 1e14: sparse path not judged, counted)",
         assumptions=["long-double LDLT with one refinement step is exact to ~1e-18 relative for cond <= 1e16"],
     ),
     "C08": dict(
@@ -201,7 +201,7 @@ PROPS = {
              "'span is an integer multiple of dt'; reparameterisation of Dubins / fitted / FixedCubic-chain curves with generated bounds; non-trivial = >= 3 points with unequal intervals, target off the axes",
         technique="property-based testing with validity predicates: re-evaluated linear constraints of the specification on the returned Bernstein coefficients, interpolation and velocity continuity, a self-validating six-word Dubins reference, coverage / monotone / onto predicates",
         level_text="Generated-input search over sampling rates (sub-second included), specifications, groups and targets; outputs are judged by the constraints the specification states, not by a single expected answer.",
-        level_note="constraints 1e-6 relative to the natural scale of the row; interpolation 1e-9; Dubins optimality within an interval [lo,hi] that lets arc parameters within 1e-7 of 0/2pi count either way; optimality of MinDerivative is not demanded",
+        level_note="constraints 1e-6 relative to the natural scale of the row; interpolation 1e-9; Dubins optimality within an interval [lo,hi] that lets arc parameters within 1e-7 of 0/2pi count either way; optimality of MinDerivative is not demanded; reparameterize_spline: cases that reach one of the two call sites of the open findings reparam.lp2d.scale / reparam.brake-clamp (reported by the SMOOTH_VERIF event hook) end there and are counted as excluded_known (about half of the generated cases), curves stationary over a whole partition step or shorter than 1e-3 are discarded",
         assumptions=["boundary derivative values of the specifications are the default zeros", "Dubins reference words count only if their reconstructed end pose hits the target"],
     ),
     "C09": dict(
@@ -226,7 +226,7 @@ PROPS = {
              "six odeint steppers x {do_step, integrate_n_steps, integrate_const}, 1..1000 steps; all 9 groups + 3 Bundles (double); non-trivial = >= 10 operations on one register incl. an inverse and an exp; distinct = hash of decoded values",
         technique="stateful property-based testing with a long-double shadow execution of the generated operation history at matrix level, invariants checked after every step",
         level_text="Generated operation histories (shrunk as one value) executed on the library objects and on an independent extended-precision matrix model; finiteness, unit constraint, canonical sign and accuracy are checked after each step with the stated (n+1)-scaled bounds.",
-        level_note="n is the global step count of the history (>= the dependency depth of any register, i.e. the weaker bound); translation-like coordinates are kept <= 1e3 by construction (counted); log-based operations are not part of the stated operation set",
+        level_note="n is the number of operations in the element's expression with multiplicity (x*x doubles every error by conditioning alone; for chains this is the step count), capped at the stated 1e5; every coordinate of every intermediate result is kept <= 30 by construction (lever arm of the rotation error; counted); margins to the bound are reported as labels; in-place products include the self-aliased x *= x; log-based operations are not part of the stated operation set",
         assumptions=["shadow arithmetic in long double accumulates < 1e-17 per operation", "Boost 1.83 odeint headers as installed"],
     ),
     "C16": dict(
